@@ -516,7 +516,7 @@ func properties() map[string]*propDef {
 			"the Go memory model is not modelled: race-free programs are assumed sequentially consistent", "ServeMux internals are a stub (the real ServeMux has its own mutex)",
 			"a race reported by the solver is confirmed natively by 200 runs under go test -race before it is printed"}, commonAssumptions...),
 		Rule:           "mutator operation x router x entry point x target; per item one race query per pair of conflicting accesses (store vs load/store of an overlapping location in different threads) and one stuck-state query, over all schedules",
-		RequiredCovers: []string{"threads-analysed", "ran"},
+		RequiredCovers: []string{"threads-analysed", "ran", "unrelated-compared"},
 	}
 	m["C15"] = &propDef{
 		ID: "C15",
